@@ -52,6 +52,7 @@ def run(ctx):
     ctx.floor("pairings", 5)
     ctx.floor("reload_refresh", 5)
     ctx.floor("exposure_pairs", 3)
+    ctx.floor("rename_scenarios", 8)
     ctx.assume("item parameters of set_hook_*_name are instances of their annotated classes")
     positive_control(ctx)
     if ctx.tier == "thorough":
@@ -133,6 +134,7 @@ def core(ctx):
     check_pairing(E)
     check_refresh(E)
     check_exposure(E, doms)
+    check_rename_scenarios(E)
 
 
 # ---- the hook store -------------------------------------------------------------------------
@@ -757,13 +759,18 @@ class _ExposureInterp(DexInterp):
         return super().compare(op, a, b, node, func)
 
 
+NAME_GETTERS = ("get_name", "get_class_name")
+
+
 def reload_reads_hooks(E, cls):
-    """accessors called on the ClassManager while <cls instance>.reload() runs (abstractly, caches filled by the
-    constructor) that reach the hook table -> sorted list"""
+    """-> (eager, lazy): hook-reaching ClassManager accessors called while <cls instance>.reload() runs (abstractly, caches
+    filled by the constructor), and those called by the name getters of the reloaded item(s) *after* the reload although the
+    same getters needed no resolver call before it (the reload only dropped the cached values: they are re-resolved lazily,
+    at some later time, through whatever the hook table holds then)"""
     rl = cls.lookup("reload")
     if rl is None:
         return None
-    hit = set()
+    eager, lazy = set(), set()
 
     def run(asg):
         calls = []
@@ -775,17 +782,39 @@ def reload_reads_hooks(E, cls):
         adj = cls.lookup("adjust_idx")
         if adj is not None:
             it.call_function(adj, [Sym("param", "prev")], recv=o)
+        items = [o] + [x for c, x, a in it.new_log if x is not o and c.name in ITEM_OF]
+
+        def ask():
+            n0 = len(calls)
+            for x in items:
+                for g in NAME_GETTERS:
+                    gf = x.cls.lookup(g) if x.cls else None
+                    if gf is not None and len(gf.params()) == 1:
+                        try:
+                            it.call_function(gf, [], recv=x)
+                        except Raised:
+                            pass
+            return calls[n0:]
+
+        before = ask()
         mark = len(calls)
         it.call_function(rl, [], recv=o)
-        return calls[mark:]
+        during = calls[mark:]
+        after = ask()
+        return before, during, after
 
     for asg, r in explore(run, max_paths=256):
         if isinstance(r, Raised):
             continue
-        for name in r:
+        before, during, after = r
+        for name in during:
             if hook_reaching(E, name):
-                hit.add(name)
-    return sorted(hit)
+                eager.add(name)
+        if not any(hook_reaching(E, n_) for n_ in before):
+            for name in after:
+                if hook_reaching(E, name):
+                    lazy.add(name)
+    return sorted(eager), sorted(lazy - eager)
 
 
 def _root(e):
@@ -871,18 +900,126 @@ def check_exposure(E, doms):
                 label = "/".join(sorted(c.name for c in tys)) + " object"
             if label is None or not tys:
                 raise AnalysisError("%s: cannot tell what `%s` reloads (shape outside the fragment)" % (f.qualname, ast.unparse(n)))
-            reads = set()
+            reads, lazy = set(), set()
             for c in tys:
                 r = reload_reads_hooks(E, c)
                 if r is None:
                     raise AnalysisError("%s: %s has no reload()" % (f.qualname, c.name))
-                reads |= set(r)
+                reads |= set(r[0])
+                lazy |= set(r[1])
             ctx.count("exposure_pairs")
+            if lazy and not reads:
+                ctx.check("aliasing-exposure", "%s invalidates %s" % (w, label), False, w_func, "%s invalidates %s (lazy re-resolution)" % (w, label),
+                          "while renames are keyed by string index (%s), ClassManager.%s only drops the cached names of %s (%s): each of them is re-resolved "
+                          "through the hook table (%s) whenever it is asked next, so a rename made *after* this call also leaks into every item of that "
+                          "set that shares the name string" % (", ".join(coarse), w, label, "/".join(c.name for c in tys) + ".reload()",
+                                                             ", ".join("cm.%s" % a for a in sorted(lazy))), node=n,
+                          detail="%s invalidates %s: names re-resolved lazily" % (w, label))
+                continue
             ctx.check("aliasing-exposure", "%s reloads %s" % (w, label), not reads, w_func, "%s reloads %s" % (w, label),
                       "while renames are keyed by string index (%s), ClassManager.%s re-resolves %s through the hook table (%s via %s): every item of that "
                       "set that merely shares a name string with a previously renamed item takes over that name although it was never renamed" % (
                           ", ".join(coarse), w, label, "/".join(c.name for c in tys) + ".reload()", ", ".join("cm.%s" % a for a in sorted(reads))),
                       node=n, detail="%s reloads %s: %s" % (w, label, "reads the hook table" if reads else "only cached id-item values, no hook lookup"))
+
+
+# ---- (4) end-to-end rename scenarios ---------------------------------------------------------------------
+def _bytes_asg(stream, data):
+    asg = {}
+    for k, byte in enumerate(data):
+        for i in range(8):
+            asg[("s", stream.base + k, i)] = (byte >> i) & 1
+    return asg
+
+
+def check_rename_scenarios(E):
+    """set_name() of an encoded field / method is executed end to end by the abstract interpreter on a concrete miniature
+    ClassManager (real ClassManager / id item / encoded item code; strings and types answered by constants): afterwards the
+    item must report the new name -- whether or not it was asked for its name before, and after a second rename."""
+    import struct as _st
+    from ..dexsim import SimInterp
+    ctx = E.ctx
+    m, cm_cls = E.m, E.cm
+    kinds = (("field", "EncodedField", "FieldHIdItem", "FieldIdItem", "FIELD_ID_ITEM", 2),
+             ("method", "EncodedMethod", "MethodHIdItem", "MethodIdItem", "METHOD_ID_ITEM", 3))
+    histories = (("renamed before it was ever asked for its name", ["set:NEW"]),
+                 ("asked for its name, then renamed", ["get", "set:NEW"]),
+                 ("renamed twice", ["set:N1", "set:N2"]),
+                 ("renamed, asked, renamed again", ["set:N1", "get", "set:N2"]))
+    cm_init = cm_cls.lookup("__init__")
+    for what, enc_name, h_name, id_name, section, nleb in kinds:
+        enc_cls, h_cls, id_cls = m.cls(enc_name), m.cls(h_name), m.cls(id_name)
+        set_name = enc_cls.lookup("set_name")
+        get_name = enc_cls.lookup("get_name")
+        ctx.require(set_name is not None and get_name is not None, "anchor vanished: %s.set_name / get_name" % enc_name)
+        ctx.analysed(set_name)
+        for label, steps in histories:
+            asg0 = _bytes_asg(StreamV("ids", index=40), _st.pack("<2HI", 1, 2, 7) + _st.pack("<2HI", 3, 2, 9))
+
+            class _Scen(SimInterp):
+                def _h_method(self, it, recv, name, args, kwargs, e, func):
+                    if isinstance(recv, Obj) and recv.cls is cm_cls:
+                        k = args[0].value() if args and isinstance(args[0], Bits) and args[0].is_const() else (args[0] if args else None)
+                        if name == "get_raw_string" and isinstance(k, int):
+                            return "raw%d" % k
+                        if name == "get_type_ref" and isinstance(k, int):
+                            return 100 + k
+                        if name == "get_proto" and isinstance(k, int):
+                            return ["(p%d)" % k, "V"]
+                    if isinstance(recv, Obj) and recv.name == "class-defs" and name == "get_class_idx":
+                        return self.class_def
+                    return super()._h_method(it, recv, name, args, kwargs, e, func)
+
+            def run(asg):
+                it = _Scen(E.repo, E.folder, asg={**asg0, **asg}, inline_module=m,
+                           construct=lambda c: c.name in (id_name, h_name, enc_name))
+                ids_st = StreamV("ids", index=40)   # a fresh stream per abstract run
+                cmo = Obj(cm_cls, "cm")
+                it.call_function(cm_init, [None], recv=cmo)
+                from ..dexmodel import PackerFactoryV
+                cmo.attrs["packer"] = PackerFactoryV()   # cm.packer[fmt] = Struct('<' + fmt) (the property is not interpreted)
+                table = cmo.attrs.get(E.cmi.mangled(E.cmi.table_attr))
+                if not isinstance(table, dict):
+                    raise AnalysisError("ClassManager.__init__ does not create the section table as a dict display")
+                it.class_def = Obj(m.cls("ClassDefItem"), "class-def")
+                it.class_def.attrs["F"] = Obj(None, "F")
+                it.class_def.attrs["M"] = Obj(None, "M")
+                table[E.cmi.members["CLASS_DEF_ITEM"]] = Obj(m.cls("ClassHDefItem"), "class-defs")
+                table[E.cmi.members[section]] = it.construct_obj(h_cls, bind_ctor_args(h_cls, ids_st, cmo, 2))
+                est = StreamV("enc", index=41)
+                est.leb_values = [0] * nleb
+                enc = it.construct_obj(enc_cls, bind_ctor_args(enc_cls, est, cmo))
+                adj = enc_cls.lookup("adjust_idx")
+                it.call_function(adj, [0], recv=enc)
+                last = None
+                for st_ in steps:
+                    if st_ == "get":
+                        it.call_function(get_name, [], recv=enc)
+                    else:
+                        last = st_[4:]
+                        it.call_function(set_name, [last], recv=enc)
+                return it.call_function(get_name, [], recv=enc), last
+
+            n = 0
+            from .. import absint as _absint
+            depth0 = _absint.MAX_DEPTH
+            _absint.MAX_DEPTH = max(depth0, 24)   # set_name -> hook -> get_name -> load -> reload -> resolver -> id item is deeper than the default
+            try:
+                results = explore(run, max_paths=128)
+            finally:
+                _absint.MAX_DEPTH = depth0
+            for asg, r in results:
+                if isinstance(r, Raised):
+                    raise AnalysisError("rename scenario (%s, %s) raises in the simulation: %s" % (what, label, r))
+                got, want = r
+                if not isinstance(got, str):
+                    raise AnalysisError("rename scenario (%s, %s): the reported name evaluates to %s, not to a concrete string" % (what, label, show(got)[:80]))
+                n += 1
+                ctx.check("rename-scenario", "%s %s" % (what, label), got == want, set_name, "%s.set_name: %s" % (enc_name, label),
+                          "a %s that is %s reports the name %r afterwards, not the new name %r (a stale resolved value survives the rename)" % (
+                              what, label, got, want), detail="%s.get_name() == %r" % (enc_name, want))
+            ctx.require(n > 0, "rename scenario (%s, %s) has no abstract path" % (what, label))
+            ctx.count("rename_scenarios")
 
 
 # ---- (3c) reload refreshes ------------------------------------------------------------------------------
